@@ -121,7 +121,13 @@ def _run(mod, ctx, replay, selftest):
                              progress=lambda d, n: print(f"[{prop}] driven {d}/{n}", flush=True))
     events = []
     per_tid = {}
+    nskipped = sum(1 for r in results if isinstance(r, dict) and r.get("skipped"))
+    if nskipped:
+        print(f"[{prop}] circuit breaker: {nskipped} scenarios skipped after repeated timeouts (the timeouts are reported)", flush=True)
     for tid, (sc, res) in enumerate(zip(scs, results), start=1):
+        if isinstance(res, dict) and res.get("skipped"):
+            per_tid[tid] = []
+            continue
         evs = res if isinstance(res, list) else crashed_events(sc, res)
         for seq, e in enumerate(evs, start=1):
             e["tid"] = tid
@@ -199,7 +205,7 @@ def _run(mod, ctx, replay, selftest):
     for tid, sc in enumerate(scs, start=1):
         h = _sc_hash(sc)
         if h not in distinct:
-            distinct[h] = mod.nontrivial(sc, per_tid[tid])
+            distinct[h] = bool(per_tid[tid]) and mod.nontrivial(sc, per_tid[tid])
     samples = []
     nt = [tid for tid, sc in enumerate(scs, start=1) if distinct.get(_sc_hash(sc))] or list(range(1, len(scs) + 1))
     step = max(1, len(nt) // 3)
